@@ -1,6 +1,7 @@
 package main
 
 import (
+	"encoding/json"
 	"fmt"
 	"math"
 	"os"
@@ -69,6 +70,36 @@ func runC16(r *Run) {
 			r.Violate("rendering-rejected-by-CreateFilter", "deepflt|"+txt, c, err.Error())
 		}
 		r.Model(parseCmd("go", 0, txt), o, c)
+	}
+	// redundant parentheses around operands whose literals end in a backslash or contain parentheses: same tree as without them
+	for _, pr := range [][2]string{
+		{`(X == "\\") or (Y == "\\")`, `X == "\\" or Y == "\\"`}, {"(X == `a\\`) and (Y == `b\\`)", "X == `a\\` and Y == `b\\`"}, {`(X == "C:\\dir\\") or (Y == "\\") or (Z == "\\")`, `X == "C:\\dir\\" or Y == "\\" or Z == "\\"`},
+		{`(a == "(") or (b == ")")`, `a == "(" or b == ")"`}, {`(a == ")") and (b == "(")`, `a == ")" and b == "("`}, {"(a == `)`) or (b == `(`)", "a == `)` or b == `(`"}, {`((X == "\\"))`, `X == "\\"`},
+		{`( X == "\\" ) and not ( Y == "\\" )`, `X == "\\" and not Y == "\\"`}, {`(a == 1) or (b == 2)`, `a == 1 or b == 2`}, {`("x)" in a) and (b contains "(y")`, `"x)" in a and b contains "(y"`},
+	} {
+		o1, o2 := parseObs([]byte(pr[0]), 0), parseObs([]byte(pr[1]), 0)
+		r.Evaluations++
+		r.Seen("paren-literals|" + pr[0])
+		c := map[string]interface{}{"text": pr[0], "without_parentheses": pr[1]}
+		t1, t2 := o1[strings.Index(o1[2:], " ")+3:], o2[strings.Index(o2[2:], " ")+3:]
+		if !strings.HasPrefix(o1, "A ") || !strings.HasPrefix(o2, "A ") || t1 != t2 {
+			r.Violate("round-trip-tree", "paren-literals|"+pr[0], c, "with parentheses "+truncate(o1, 200)+", without "+truncate(o2, 200))
+		}
+		for _, txt := range pr {
+			ev, err := bexpr.CreateEvaluator(txt)
+			if err != nil {
+				r.Violate("rendering-rejected-by-CreateEvaluator", "paren-literals-cev|"+txt, c, err.Error())
+				continue
+			}
+			var p1 []string
+			if got := sExpr(ev.VerifAST(), &p1); got != t2 {
+				r.Violate("round-trip-tree", "paren-literals-cevtree|"+txt, c, "CreateEvaluator holds "+truncate(got, 300))
+			}
+			if _, err := bexpr.CreateFilter(txt); err != nil {
+				r.Violate("rendering-rejected-by-CreateFilter", "paren-literals-flt|"+txt, c, err.Error())
+			}
+		}
+		r.Model(parseCmd("go", 0, pr[0]), o1, c)
 	}
 	// literal texts with a prescribed denotation: strconv.Unquote (the Go string the literal spells) is the oracle
 	for _, lit := range []string{"`a\rb`", "`a\r\nb`", "`\r`", "`\\n`", "`a\\`", "\"a\nb\"", "\"a\tb\"", `"\u00e9"`, `"\U0001F600"`, `"\x41\101"`, `"\a\b\f\v"`, `"a\\b"`, `"\'"`, `"'"`, "`'\"`", `"\ud800"`, `"\400"`, `"\x4"`, "\"\xff\"", "`\xff`", `""`, "``", `"/"`, `"/a/b"`, `"//"`, "`/x`"} {
@@ -196,6 +227,7 @@ func runC19(r *Run) {
 			r.Sample(map[string]interface{}{"text": txt, "indent": ind, "level": lvl, "dump": truncate(string(b), 300)})
 		}
 	}
+	c19WritersAndChains(r)
 }
 
 func walkSelectors(e grammar.Expression, f func(grammar.Selector)) {
@@ -291,6 +323,31 @@ func runC17(r *Run) {
 		{"map[NStr]int", map[NStr]int{"a": 1, "b": 2}}, {"map[bool]int", map[bool]int{true: 1, false: 2}}, {"map[float64]int", map[float64]int{1.5: 1, math.NaN(): 1, math.Inf(1): 2}},
 		{"map[interface{}]interface{}", map[interface{}]interface{}{"a": 1, 2: "b", true: 1}}, {"map-empty", map[string]int{}}, {"map-nil", map[string]int(nil)}, {"map[string]*S1", map[string]*S1{"a": {A: 1}, "n": nil}},
 		{"int", 5}, {"string", "abc"}, {"struct", S1{A: 1}}, {"nil", nil}, {"*[]int", &[]int{1, 2}}, {"chan", make(chan int)}, {"func", func() {}}, {"[][]int", [][]int{{1}, {}, {1, 2}}},
+		{"map[float64]S1-NaN", func() interface{} {
+			m := map[float64]S1{1.5: {A: 2}, math.Inf(-1): {A: 1}, math.Copysign(0, -1): {A: 1}}
+			m[math.NaN()] = S1{A: 1}
+			m[math.NaN()] = S1{A: 1, B: "a"}
+			m[math.NaN()] = S1{A: 2}
+			return m
+		}()},
+		{"map[interface{}]S1-NaN", func() interface{} {
+			m := map[interface{}]S1{"k": {A: 1}, 1: {A: 2}}
+			m[math.NaN()] = S1{A: 1}
+			m[float32(math.NaN())] = S1{A: 1}
+			return m
+		}()},
+		{"map[[2]float64]map-NaN", func() interface{} {
+			m := map[[2]float64]map[string]interface{}{{1, 2}: {"A": 1}}
+			m[[2]float64{math.NaN(), 1}] = map[string]interface{}{"A": 1}
+			m[[2]float64{math.NaN(), 1}] = map[string]interface{}{"A": 2}
+			return m
+		}()},
+		{"map[float32]*S1-NaN", func() interface{} {
+			m := map[float32]*S1{1: {A: 1}}
+			m[float32(math.NaN())] = &S1{A: 1}
+			m[float32(math.NaN())] = nil
+			return m
+		}()},
 		{"[]S5", []S5{{V: 1, Sec: "s"}, {V: 2}}}, {"nil-*[]int", (*[]int)(nil)}, {"nil-*S1", (*S1)(nil)}, {"nil-*map", (*map[string]int)(nil)}, {"**[]int", func() **[]int { l := &[]int{1}; return &l }()}, {"[2]S1", [2]S1{{A: 1}, {A: 2}}}, {"[2]string", [2]string{"a", "b"}}, {"[]json-like", []interface{}{map[string]interface{}{"A": 1, "B": "a"}, map[string]interface{}{"A": "x"}, map[string]interface{}{}}},
 	}
 	exprs := []string{"", `"" == 1`, "A == 1", "A != 1", "B == a", "A == 1 or B == b", "not A == 1", "A is empty", "M.k == 1", "M is not empty", "zz == 1", "A == x", "V == 1", `"/A" == 1`, "any M as k { k == k }", "A matches `1`",
@@ -574,6 +631,8 @@ func runC18(r *Run) {
 		{"W.m.zz != 1", S7{W: Wrap{map[string]interface{}{"m": map[string]interface{}{"k": 1}}}}}, {"lab.zz != x", S7{Labels: map[string]string{"a": "b"}}}, {"labels.zz is empty", S7{Labels: map[string]string{"a": "b"}}},
 		{"any L as t { t == BLUE }", S1{L: []string{"red", "blue"}}}, {"L.1 == BLUE", S1{L: []string{"red", "blue"}}}, {"all L as i, t { t != blue }", S1{L: []string{"red", "blue"}}}, {"BLUE in L", S1{L: []string{"red", "blue"}}}, {"B == AB", S1{B: "ab"}}, {"any Arr2 as s { s == X }", struct{ Arr2 [2]string }{[2]string{"x", "y"}}},
 		{`"/` + strings.Repeat("\U00020000", 400) + `" == 1 and b == 2 or c == 3`, map[string]interface{}{strings.Repeat("\U00020000", 400): 1, "b": 2, "c": 3}},
+		{"l.5 == 1", map[string]interface{}{"l": []int{1, 2}}}, {`"/l/2" == 1 or l.0 == 1`, map[string]interface{}{"l": []int{1, 2}}}, {"items.7.name == a", map[string]interface{}{"items": []interface{}{map[string]interface{}{"name": "a"}}}}, {"l.-1 is empty", map[string]interface{}{"l": []int{1}}},
+		{"any l as x { l.9 == x }", map[string]interface{}{"l": []int{1, 2}}}, {"a.b.c == 1", map[string]interface{}{"a": map[string]interface{}{"b": 5}}}, {"s.0 == a", map[string]interface{}{"s": "abc"}},
 		{"owner == nobody", map[string]interface{}{"owner": nil}}, {"any tags as t { t == a }", map[string]interface{}{"tags": []interface{}{"blue", nil}}}, {"I == a", S1{I: nil}}, {"P == 1", S1{}},
 	}
 	n := len(pairs)
@@ -661,6 +720,7 @@ func runC18(r *Run) {
 		}{
 			{"tag-bexpr", bexpr.WithTagName("bexpr")}, {"identity-hook", bexpr.WithHookFn(hookFn(1))}, {"budget-0", bexpr.WithMaxExpressions(0)},
 			{"budget-N", bexpr.WithMaxExpressions(N)}, {"budget-large", bexpr.WithMaxExpressions(1 << 40)}, {"nil-option", nil},
+			{"budget-maxuint64", bexpr.WithMaxExpressions(math.MaxUint64)}, {"budget-2^63", bexpr.WithMaxExpressions(1 << 63)}, {"budget-2^63+1", bexpr.WithMaxExpressions(1<<63 + 1)}, {"budget-2^63-1", bexpr.WithMaxExpressions(1<<63 - 1)}, {"budget-2^32", bexpr.WithMaxExpressions(1 << 32)},
 		}
 		for _, nt := range neutrals {
 			o := exprObs(p.e, p.d, nt.o)
@@ -779,6 +839,7 @@ func runC13(r *Run) {
 		}
 	}
 	c13InPlaceAndNested(r, n/2, hist)
+	c13RepeatStability(r, n/2)
 	// filters
 	for i := 0; i < n/2; i++ {
 		rng = NewRng(mix(r.Seed, strHash("C13f"), uint64(i)))
@@ -854,10 +915,17 @@ func runC12(r *Run) {
 		{"none", func() []bexpr.Option { return nil }},
 		{"unknown", func() []bexpr.Option { return []bexpr.Option{bexpr.WithUnknownValue("aaa")} }},
 		{"hook", func() []bexpr.Option { return []bexpr.Option{bexpr.WithHookFn(hookFn(2))} }},
+		{"unknown-json-number", func() []bexpr.Option {
+			return []bexpr.Option{bexpr.WithUnknownValue(json.Number("1")), bexpr.WithTagName("bexpr")}
+		}},
 	}
+	data = append(data, map[string]interface{}{"A": 1.0, "B": "aaa", "LI": []interface{}{1.0, uint8(1), 1}}, map[string]interface{}{"A": uint8(1), "LI": []interface{}{uint64(1), 1.5}}, map[string]interface{}{"A": "1", "LI": []interface{}{"1", int8(1)}},
+		map[string]interface{}{"A": float32(1), "LI": []interface{}{float32(1), 1.0}}, map[string]interface{}{"A": json.Number("1"), "LI": []interface{}{json.Number("1"), true}})
+	exprs = append(exprs, "A != 1", "1 not in LI", "any LI as x { x == 1 }")
 	for _, e := range exprs {
 		for _, os_ := range optsets {
 			fmt.Fprintf(os.Stderr, "CASE %s [%s]\n", e, os_.name)
+			sharedOpts := os_.o() // ONE list of option values, handed to every concurrent creation below
 			seqEv, err := bexpr.CreateEvaluator(e, os_.o()...)
 			if err != nil {
 				continue
@@ -877,7 +945,7 @@ func runC12(r *Run) {
 				go func(g int) {
 					defer wg.Done()
 					// concurrent creation as well
-					own, _ := bexpr.CreateEvaluator(e, os_.o()...)
+					own, _ := bexpr.CreateEvaluator(e, sharedOpts...)
 					for k := 0; k < calls; k++ {
 						i := (g + k) % len(data)
 						o := evalObs(shared, data[i])
